@@ -106,6 +106,33 @@ def guards(cx):
         okp = r1 and r2 and contains(("enum", "raft::confchange::changer::MapChangeType", "Remove"), v)
         # and it happens before outgoing is cleared
         okp = okp and bool(clr) and not g.dominated_by_block(p.at, lambda b: b == clr[0].block)
+    if not pushes:
+        # iterator form: changes.extend(outgoing.iter().filter(|id| !incoming.contains(id) && !learners.contains(id)).map(|id| (*id, Remove)))
+        from ..idioms import closure_returns
+        for e in ext:
+            a1 = call_args(cx, e)[1]
+            fl = [x for x in walk(a1) if x[0] == "call" and x[1].endswith("::filter")]
+            mp = [x for x in walk(a1) if x[0] == "call" and x[1].endswith("::map")]
+            if len(fl) != 1 or len(mp) != 1 or not contains(fld("Configuration.outgoing"), fl[0][2][0]):
+                continue
+            fc = [x for x in fl[0][2] if x[0] == "closure"]
+            mc = [x for x in mp[0][2] if x[0] == "closure"]
+            if len(fc) != 1 or len(mc) != 1:
+                continue
+            okf = True
+            from ..idioms import _apply_closure
+            for r in _apply_closure(cx.prog, fc[0], ("item",)) or [((), ("?",))]:
+                lits, v = r[0], r[1]
+                if v == ("bool", False):
+                    continue
+                def neg_contains(which, lits=lits, v=v):
+                    inl = any(l[0] == "is" and l[2] is False and l[1][0] == "call" and l[1][1].endswith("::contains") and any(x[0] == "field" and x[2] == which for x in walk(l[1])) for l in lits)
+                    inv = v[0] == "un" and v[1] == "Not" and v[2][0] == "call" and v[2][1].endswith("::contains") and any(x[0] == "field" and x[2] == which for x in walk(v[2]))
+                    return inl or inv
+                okf = okf and neg_contains("Configuration.incoming") and neg_contains("Configuration.learners") and (v == ("bool", True) or v[0] == "un")
+            mr = closure_returns(cx.prog, mc[0][1]) or []
+            okm = len(mr) == 1 and contains(("enum", "raft::confchange::changer::MapChangeType", "Remove"), mr[0][1])
+            okp = okf and okm and bool(clr) and not g.dominated_by_block(e.at, lambda b: b == clr[0].block)
     cx.check(okp, "leave:remove-progress", "leave_joint removes the progress of outgoing voters that are neither incoming voters nor learners (before clearing outgoing)")
     # apply(): node_id == 0 skipped, at least one voter afterwards, dispatch by change type
     g = cx.pg(apply_)
@@ -203,14 +230,30 @@ def progress_sync(cx):
     ac = cx.fn("ProgressTracker::apply_conf")
     g = cx.pg(ac)
     arms = {}
+
+    def map_ops(fn):
+        """insert/remove calls on the progress map made by fn"""
+        out = []
+        for sp2, s2 in cx.prog.calls_out[fn.key]:
+            if s2.kind == "call" and sp2.rsplit("::", 1)[-1] in ("insert", "remove") and contains(fld("ProgressTracker.progress"), call_args(cx, s2)[0]):
+                out.append(sp2.rsplit("::", 1)[-1])
+        return out
     for sp, s in cx.prog.calls_out[ac.key]:
         if s.kind != "call":
             continue
         m = sp.rsplit("::", 1)[-1]
+        ops = []
         if m in ("insert", "remove") and contains(fld("ProgressTracker.progress"), call_args(cx, s)[0]):
+            ops = [m]
+        elif sp in cx.prog.short:
+            # an arm body moved into a private helper of the tracker
+            hf = cx.prog.fn_by_short(sp)
+            if hf is not None and hf.vis != "Public" and hf.impl_adt == ac.impl_adt:
+                ops = map_ops(hf)
+        if len(ops) == 1:
             for l in cx.guard_lits(s):
                 if l[0] == "in" and l[3] and l[3].endswith("MapChangeType") and len(l[2]) == 1:
-                    arms[list(l[2])[0]] = m
+                    arms[list(l[2])[0]] = ops[0]
     cx.check(arms == {"Add": "insert", "Remove": "remove"}, "apply_conf", "apply_conf inserts a progress for every Add and removes it for every Remove (found %s)" % arms)
     ws = [s for s in cx.prog.writes.get("ProgressTracker.conf", []) if s.fn is ac and "stmt" in s.data]
     cx.check(len(ws) == 1 and cx.prog.A(ac).expr_rvalue(ws[0].data["stmt"]["rv"], ws[0].at)[0] == "param", "apply_conf:conf", "apply_conf installs the new configuration")
